@@ -424,6 +424,8 @@ def _big_cases(tier):
             opts = [dict(), dict(n_pca_modes=20), dict(n_pca_modes=0.9)]
         for o in opts:
             for k in ((2,) if tier == "quick" else (1, 2, 4)):
+                if k > 2 and isinstance(o.get("n_pca_modes"), float):
+                    continue  # 90 % of the variance is held by the three signal PCs: more modes than that is a documented refusal
                 out.append(dict(sweep="big", model=model, family="big", rot=None, n_modes=k, opts=o, container="DataArray", sdims=1, ylabels="same", mask="none", flags="default", labels="ascending"))
     return out
 
